@@ -395,7 +395,7 @@ func (m *Module) siteIndex() *siteIndex {
 				var callValue ssa.Value
 				if ci, ok := in.(ssa.CallInstruction); ok {
 					callValue = ci.Common().Value
-					for _, callee := range m.Callees(ci.Common()) {
+					for _, callee := range m.calleesBase(ci.Common()) {
 						idx.sites[callee] = append(idx.sites[callee], ci)
 					}
 				}
